@@ -105,6 +105,12 @@ func streamC05(c *Ctx) {
 		}
 		im.Destroy()
 	}
+	// an operation too large for one backend transaction must be refused as a whole, also across reopen
+	for _, be := range []string{"bbolt", "badger-disk"} {
+		if !bigBatchNoTrace(c, be) {
+			return
+		}
+	}
 	// (ii) kill at a random instant
 	self, _ := os.Executable()
 	kills := c.N(24, 600)
